@@ -181,6 +181,83 @@ Theorem C20_verify_parse_flags_iff : forall (want : bool) (marks : list nat) (pe
 Proof. exact verify_parse_flags_iff. Qed.
 Print Assumptions C20_verify_parse_flags_iff.
 
+(* ---------- verification modes and the whole of Verify ---------- *)
+
+(* an absent verification field and the explicit, documented value "match" are
+   the same mode *)
+Theorem C20_verify_default_is_match :
+  load_verification None = Ok VMatch /\ load_verification (Some (s_ "match")) = Ok VMatch.
+Proof. exact verify_default_is_match. Qed.
+Print Assumptions C20_verify_default_is_match.
+
+(* exactly the four documented values (and absence) load; everything else is
+   rejected when the front matter is loaded *)
+Theorem C20_load_verification_spec : forall (v : option str) (m : vmode),
+  load_verification v = Ok m <->
+  (v = None /\ m = VMatch) \/ (v = Some (s_ "match") /\ m = VMatch) \/ (v = Some (s_ "none") /\ m = VNone) \/
+  (v = Some (s_ "parse-error") /\ m = VParseError) \/ (v = Some (s_ "no-parse-error") /\ m = VNoParseError).
+Proof. exact load_verification_spec. Qed.
+Print Assumptions C20_load_verification_spec.
+
+Theorem C20_load_verification_result : forall v : option str,
+  (exists m, load_verification v = Ok m) \/ load_verification v = Err EInvalidFm.
+Proof. exact load_verification_result. Qed.
+Print Assumptions C20_load_verification_result.
+
+(* Verify of an unsealed choice question under match verification (either
+   spelling, by the two theorems above): accepted exactly when the answer
+   denotes marks and the marked choices are PRECISELY the matching choices *)
+Theorem C20_question_verify_match_choice_iff :
+  forall (SK : Type) (parse_priv : str -> option SK) (rsa_dec : SK -> bytes -> option bytes)
+         (gcm_open : bytes -> bytes -> option bytes) (b64_dec : str -> option bytes) (run : str -> str)
+         (ignore : bool) (privs : str) (f : fm) (is_src : bool) (outs : list str) (gen : str) (perrs : list bool),
+    sealed f = [] -> choice_type (fm_type f) ->
+    (question_verify SK parse_priv rsa_dec gcm_open b64_dec run verify_choice
+       ignore privs VMatch f is_src outs gen perrs = Ok tt <->
+     answer f <> [] /\ exists marks, answer_marks (fm_type f) (answer f) = Ok marks /\ marks_exact marks outs gen).
+Proof. exact question_verify_match_choice_iff. Qed.
+Print Assumptions C20_question_verify_match_choice_iff.
+
+(* verification: none is, by the code's design, no verification: every
+   unsealed question with a well-formed answer is accepted (the property's
+   "exactly when" clause is about match verification) *)
+Theorem C20_question_verify_none_iff :
+  forall (SK : Type) (parse_priv : str -> option SK) (rsa_dec : SK -> bytes -> option bytes)
+         (gcm_open : bytes -> bytes -> option bytes) (b64_dec : str -> option bytes) (run : str -> str)
+         (ignore : bool) (privs : str) (f : fm) (is_src : bool) (outs : list str) (gen : str) (perrs : list bool),
+    sealed f = [] ->
+    (question_verify SK parse_priv rsa_dec gcm_open b64_dec run verify_choice
+       ignore privs VNone f is_src outs gen perrs = Ok tt <->
+     answer f <> [] /\ exists marks, answer_marks (fm_type f) (answer f) = Ok marks).
+Proof. exact question_verify_none_iff. Qed.
+Print Assumptions C20_question_verify_none_iff.
+
+(* Verify is a function of the question: in a history of verifications done
+   by one process (the model of the sequential loop threads only the list of
+   verdicts) every question gets the verdict it gets when verified alone,
+   wherever and however often it occurs.  The model has no process-wide state
+   because the Go code has none; the harness checks exactly this on question
+   sequences sharing program texts across result types. *)
+Theorem C20_verify_history_is_map :
+  forall (SK : Type) (parse_priv : str -> option SK) (rsa_dec : SK -> bytes -> option bytes)
+         (gcm_open : bytes -> bytes -> option bytes) (b64_dec : str -> option bytes) (run : str -> str)
+         (qs : list question),
+    verify_history SK parse_priv rsa_dec gcm_open b64_dec run qs =
+    map (verify_one SK parse_priv rsa_dec gcm_open b64_dec run) qs.
+Proof. exact verify_history_is_map. Qed.
+Print Assumptions C20_verify_history_is_map.
+
+Theorem C20_verify_history_position :
+  forall (SK : Type) (parse_priv : str -> option SK) (rsa_dec : SK -> bytes -> option bytes)
+         (gcm_open : bytes -> bytes -> option bytes) (b64_dec : str -> option bytes) (run : str -> str)
+         (pre : list question) (q : question) (post : list question),
+    nth_error (verify_history SK parse_priv rsa_dec gcm_open b64_dec run (pre ++ q :: post)) (List.length pre)
+      = Some (verify_one SK parse_priv rsa_dec gcm_open b64_dec run q) /\
+    verify_history SK parse_priv rsa_dec gcm_open b64_dec run [q]
+      = [verify_one SK parse_priv rsa_dec gcm_open b64_dec run q].
+Proof. exact verify_history_position. Qed.
+Print Assumptions C20_verify_history_position.
+
 (* ---------- regression: the function before commit 1e7a3a9 ---------- *)
 
 (* the walk alone decides the statement only among the EXISTING choices … *)
